@@ -55,7 +55,7 @@ TRUSTED = [
 
 ASSUMPTIONS = [
     "interleaving semantics at the granularity of single atomic/close operations under sequentially consistent atomics",
-    "client programs: goroutines calling Add(+n)/Add(-n)/Wait on a group made by NewSelectableWaitGroup; schedules are generated so that the conservative lower bound never goes negative (a decrement is issued only after increments covering it have returned)",
+    "client programs: goroutines calling Add(+n)/Add(0)/Add(-n)/Wait on a group made by NewSelectableWaitGroup; schedules are generated so that the conservative lower bound never goes negative (a decrement is issued only after increments covering it have returned)",
 ]
 
 
@@ -240,7 +240,10 @@ def minimise(ctx, binp, judge_name, j, rounds=8):
 
 # ---------------------------------------------------------------- views
 def call_str(c):
-    return "Wait" if c["k"] == "wait" else "Add(%+d)" % c["d"]
+    if c["k"] == "wait":
+        return "Wait"
+    d = c.get("d", 0)
+    return "Add(0)" if d == 0 else "Add(%+d)" % d
 
 
 def prog_str(progs):
@@ -330,13 +333,13 @@ def run_check(ctx, pid):
     if quick:
         runs = [("corpus", ["-mode", "corpus"]),
                 ("pb1", ["-mode", "pb", "-pre", 1, "-tmoevery", 7]),
-                ("pb2", ["-mode", "pb", "-pre", 2, "-progs", "0,2,4", "-tmoevery", 15]),
+                ("pb2", ["-mode", "pb", "-pre", 2, "-progs", "0,2,4,12,14", "-tmoevery", 15]),
                 ("random", ["-mode", "random", "-n", 24, "-tmoevery", 5]),
                 ("randprog", ["-mode", "randprog", "-n", 70, "-tmoevery", 5])]
     else:
         runs = [("corpus", ["-mode", "corpus"]),
                 # every schedule of every 2-goroutine program of the catalogue
-                ("exh2", ["-mode", "exhaustive", "-progs", "2,3,4,7,8", "-max", 400000, "-tmoevery", 500]),
+                ("exh2", ["-mode", "exhaustive", "-progs", "2,3,4,7,8,12,13,14,15,16", "-max", 400000, "-tmoevery", 500]),
                 # every schedule with <= 2 preemptions of every program (3 and 4 goroutines included)
                 ("pb2", ["-mode", "pb", "-pre", 2, "-tmoevery", 50]),
                 ("pb3", ["-mode", "pb", "-pre", 3, "-progs", "0,1,5", "-max", 60000, "-tmoevery", 200]),
@@ -467,7 +470,7 @@ def run_check(ctx, pid):
         "enumerations": enums,
         "distinct_traces": vlib.distinct_count([[j["progs"], [[o["tid"], o["ev"], o["val"], o["count"], o["closed"], o["site"]] for o in j["obs"]]] for j in jsons]),
         "exhaustive": (not quick),
-        "exhaustive_note": "thorough: every schedule of every 2-goroutine catalogue program (2,3,4,7,8) and of program 0, every <=2-preemption schedule of the whole catalogue (3 and 4 goroutines), <=3 preemptions for programs 0,1,5; quick: every <=1-preemption schedule of the catalogue, <=2 for three programs, plus random schedules and random programs; counts per program in `enumerations` (complete = the enumeration finished below its cap)",
+        "exhaustive_note": "thorough: every schedule of every 2-goroutine catalogue program (2,3,4,7,8,12-16; 12-14 exercise Add(0), 15-16 Add(+3)/Add(-3)/Add(-2)) and of program 0, every <=2-preemption schedule of the whole catalogue (3 and 4 goroutines), <=3 preemptions for programs 0,1,5; quick: every <=1-preemption schedule of the catalogue, <=2 for three programs, plus random schedules and random programs; counts per program in `enumerations` (complete = the enumeration finished below its cap)",
         "samples": [view(j) for j in jsons[:1] + jsons[len(jsons) // 2:len(jsons) // 2 + 1]],
         "violating_cases": len(fails), "model_differences": len(diffs),
     })
